@@ -383,8 +383,8 @@ impl StepEnv {
         let data_vec = [
             data.bid_price,
             data.ask_price,
-            data.ask_vol,
             data.bid_vol,
+            data.ask_vol,
             data.bid_price_levels[0].0,
             data.bid_price_levels[0].1,
             data.ask_price_levels[0].0,
@@ -431,8 +431,8 @@ impl StepEnv {
             self.env.get_orderbook().get_trade_vol(),
             data.bid_price,
             data.ask_price,
-            data.ask_vol,
             data.bid_vol,
+            data.ask_vol,
         ];
 
         for i in 0..10 {
